@@ -159,9 +159,11 @@ package dnsdata
 //@ spec tquoted(i int, x slice) bool = tokK[i] == 7 && tokB[i] == x
 
 //@ extern bytes Buffer.WriteString
+//@ pure
 //@ updates ntok, tokK, tokS
 //@ ensures ntok == old(ntok) + 1 && tokK == upd(old(tokK), old(ntok), 1) && tokS == upd(old(tokS), old(ntok), s)
 //@ extern bytes Buffer.Write
+//@ pure
 //@ updates ntok, tokK, tokB
 //@ ensures ntok == old(ntok) + 1 && tokK == upd(old(tokK), old(ntok), 2) && tokB == upd(old(tokB), old(ntok), p)
 //@ extern bytes Buffer.Bytes
@@ -260,6 +262,7 @@ package dnsdata
 //@ ghostvar hL (Array Int Str)
 //@ ghostvar teeOf seq
 //@ extern io Writer.Write
+//@ pure
 //@ updates hN, hL, ntok, tokK, tokB
 //@ ensures[tee] teeOf[recv] != 0 && err == nil ==> hN == upd(old(hN), teeOf[recv], old(hN)[teeOf[recv]] + 1) && hL == upd(old(hL), teeOf[recv], string(p))
 //@ ensures[other] teeOf[recv] == 0 ==> hN == old(hN) && hL == old(hL)
@@ -274,10 +277,12 @@ package dnsdata
 //@ func putrrhead
 //@ updates ntok, tokK, tokB, tokN
 //@ pure
+//@ flag allocs on
 //@ requires w != nil
 //@ ensures[count] ntok == old(ntok) + 4 + ite(hasloc(loc), 1, 0)
 //@ ensures[head] rrhead(old(ntok), t, ttl, loc, iswildcard)
 //@ ensures[frame] forall(i, 0, old(ntok), tokK[i] == old(tokK)[i] && tokB[i] == old(tokB)[i] && tokN[i] == old(tokN)[i])
+//@ ensures[alloc] forall(i, old(ntok), ntok, tokK[i] == 2 ==> allocated(tokB[i]))
 
 //@ func putloc
 //@ trusted
@@ -517,6 +522,7 @@ package dnsdata
 //@ ensures[chunks] err == nil ==> forall(c, 0, (len(r.txt) + 126) / 127, txtchunk(old(ntok) + ite(r.c.Features.UseV2Keys, 3, 2) + (4 + ite(hasloc(r.lo), 1, 0)) + 2 * c, r.txt, c))
 //@ ensures[one] err == nil && len(result0) == 1
 //@ loop 0 invariant[pos] 0 <= sofar && sofar <= len(r.txt) && (sofar % 127 == 0 || sofar == len(r.txt)) && ntok == old(ntok) + ite(r.c.Features.UseV2Keys, 3, 2) + (4 + ite(hasloc(r.lo), 1, 0)) + 2 * ((sofar + 126) / 127) && r.txt == old(r.txt) && r.lo == old(r.lo) && r.c == old(r.c) && r.c.Features.UseV2Keys == old(r.c.Features.UseV2Keys) && r.ttl == old(r.ttl) && r.iswildcard == old(r.iswildcard)
+//@ loop 0 invariant[alloc] forall(i, old(ntok) + ite(r.c.Features.UseV2Keys, 3, 2), ntok, tokK[i] == 2 ==> allocated(tokB[i]))
 //@ loop 0 invariant[head] rrhead(old(ntok) + ite(r.c.Features.UseV2Keys, 3, 2), 16, r.ttl, r.lo, r.iswildcard)
 //@ loop 0 invariant[chunks] forall(c, 0, (sofar + 126) / 127, txtchunk(old(ntok) + ite(r.c.Features.UseV2Keys, 3, 2) + (4 + ite(hasloc(r.lo), 1, 0)) + 2 * c, r.txt, c))
 
